@@ -596,7 +596,7 @@ impl Gen<'_> {
                 n = next.min(3);
             }
         }
-        // numbers with gaps (fa59617: a complete may list any strictly ascending selection)
+        // numbers with gaps (dbb8684: a complete may list any strictly ascending selection)
         if self.rng.chance(1, 6) {
             n = self.rng.pick(&[5, 9, 4, 7, 10000]);
         }
@@ -711,7 +711,7 @@ impl Gen<'_> {
         let have: Vec<(i32, usize)> = i.map(|i| self.sim.ups[i].parts.iter().map(|(n, l)| (*n, *l)).collect()).unwrap_or_default();
         let all: Vec<i32> = have.iter().map(|(n, _)| *n).collect();
         let join = |v: &[i32]| format!("+{}", v.iter().map(ToString::to_string).collect::<Vec<_>>().join(","));
-        // (since fa59617 the listed numbers need not be consecutive, and since a00e4e8 every part list is answered as the store
+        // (since dbb8684 the listed numbers need not be consecutive, and since 0fcb858 every part list is answered as the store
         // prescribes — MalformedXML, InvalidPartOrder, InvalidPart, EntityTooSmall, in this order — and a refused complete
         // changes nothing: a clean history may send any part list)
         // (since b29f222 a complete into a bucket that no longer exists is refused and changes nothing: a clean history
@@ -858,7 +858,7 @@ impl Gen<'_> {
         let u = format!("u{}", self.sim.ups.len());
         self.ops.push(format!("mpc:{w}:{}:{}:{}", hs(&b), hs(&k), meta_str(m.as_ref())));
         let lens = [MIB5 + self.rng.below(5) as usize, MIB5, self.rng.below(5000) as usize];
-        // consecutive numbers, or numbers with gaps (fa59617), uploaded in any order
+        // consecutive numbers, or numbers with gaps (dbb8684), uploaded in any order
         let nums: [i32; 3] = self.rng.pick(&[[1, 2, 3], [1, 2, 3], [2, 5, 9], [1, 3, 10000], [3, 4, 6]]);
         let mut order = [0usize, 1, 2];
         if self.rng.chance(1, 2) {
